@@ -32,6 +32,14 @@ def run(ctx):
         r = ctx.tlc_must_pass("Srv9P", "c07_%s.cfg" % name, timeout=2400, name=name)
         states += r.distinct
         trans += r.generated
+    if not q:
+        # four requests with tag groups and flushes (two flushes in one group, a late joiner): too large to exhaust; random walks
+        c4 = srvfam.consts(ctx, NReq=4, Tags={1, 2, 3}, Kinds={"Stat", "Flush"}, SharedTags=True, Late=False, InitFids={1})
+        ctx.write_cfg("c07_flushq4_sim.cfg", c4, invariants=INVS + ["TagGroupFIFO", "NoQueuedForever"])
+        r4 = ctx.tlc("Srv9P", "c07_flushq4_sim.cfg", workers=None, timeout=300, name="flushq4:simulate",
+                     extra=["-simulate", "num=100000000", "-depth", "80"], expect_violation=True)
+        if r4.violated:
+            ctx.inconclusive.append("TLC simulation of the 4-request tag-group flush model violates %s" % r4.violated)
     # 2. spec -> code: complete transition tours of small flush models replayed on the real server
     tours = [
         ("tA", dict(NReq=2, Kinds={"Attach", "Stat", "Flush"}, Late=False, InitFids={1}), 4000 if q else None),
